@@ -25,7 +25,8 @@ func init() {
 			"elements are symbols, characters and (symbol . id) pairs, on which slip's documented default test equal agrees with eql",
 			"harness-defined callbacks c14-lt (strict order on the alphabet) and c14-pair (reducing function) are trusted",
 			"functions slip does not define (find-if-not, position-if-not, count-if-not, remove-if-not, delete-if-not, substitute-if-not, " +
-				"member-if-not, rassoc-if-not) and :test-not (documented by no sequence function) are not demanded",
+				"member-if-not, rassoc-if-not) and :test-not (documented by no sequence function) are not demanded; the named test is " +
+				"equal, not eql (slip's eql raises a type-error on two different symbols, a defect of eql itself, outside this property)",
 			"only in-range bounding indices and sorted merge inputs are enumerated",
 		},
 		Enumerate: enumerate,
@@ -89,19 +90,28 @@ func bound(tier string) string {
 	if tier == engine.Thorough {
 		extra = "; additionally the item/-if/substitute families over the 4-letter alphabets abcd / abBc with items a b c up to length 4"
 	}
+	twoTests := "absent, an order lambda"
+	if len(c.twoTests) == 3 {
+		twoTests = "absent, equal, an order lambda"
+	}
 	return fmt.Sprintf("find position count remove delete substitute nsubstitute (+ -if) and remove-/delete-duplicates: every list, vector "+
-		"and string of length 0..%d over a 3-letter alphabet (lists/vectors %q, strings %q, item b: an element that matches under eql, "+
-		"one that matches only under the key, one that matches under the order test) x every :start/:end (absent, explicit, :end nil) "+
-		"x :key (absent, car on (sym . id) pairs / char-downcase) x :test (absent, eql, an order lambda) x :count (absent 0 1 2) x "+
-		":from-end; :count nil/-1 and :test-not on length 0..%d; member/assoc/rassoc (+ -if, assoc-if-not) on lists 0..%d; "+
-		"search/mismatch/replace: sequence-1 0..%d x sequence-2 0..%d over %q/%q, all explicit start/end pairs of both, list/vector/string "+
-		"and mixed; subseq/fill/reverse 0..%d; sort/stable-sort 0..%d (strings 0..%d) x two predicates x :key, plus every list/vector of "+
-		"pairs over 2 letters of length %d..%d; merge of sorted inputs "+
-		"0..%d each x result types; union/intersection/set-difference/subsetp (+ n-variants) lists 0..%d; every/some/notany/notevery one "+
-		"sequence 0..%d, two 0..%d; map/mapcar 0..%d; reduce 0..%d x bounds x :key x :from-end x :initial-value; concatenate of up to %d "+
-		"sequences 0..%d%s",
-		c.itemL, c.letters, c.sletters, c.edgeL, c.assocL, c.twoL1, c.twoL2, c.twoAB, c.twoSAB, c.subL, c.sortL, c.sortSL, c.longLo, c.longHi, c.mergeL,
-		c.setL, c.quantL1, c.quantL2, c.mapL, c.reduceL, c.concatN, c.concatL, extra)
+		"and string of length 0..%d over a 3-letter alphabet (lists/vectors %q, strings %q, item b: one element that matches under equal, "+
+		"one that matches only under the key or not at all, one that matches under the order test) x every in-range :start/:end "+
+		"(absent, explicit, :end nil) x :key (absent, car on (sym . id) pairs / char-downcase) x :test (absent, equal, an order lambda; "+
+		"an equivalence lambda for the duplicates functions) x :count (absent 0 1 2) x :from-end, the empty list written both '() and nil; "+
+		":count nil and -1 on length 0..%d; member/assoc/rassoc (+ -if, assoc-if-not) on lists 0..%d x items a b c x :key x :test; "+
+		"search/mismatch/replace: sequence-1 0..%d x sequence-2 0..%d (replace: the other way round) over %q (strings %q), absent bounds "+
+		"and every explicit in-range start/end pair of both sequences x :key x :test (%s) x :from-end, for list/list, vector/vector, "+
+		"string/string, list/vector, vector/list and (length <= 2) string/character-list; subseq/fill/reverse/nreverse 0..%d; "+
+		"sort/stable-sort 0..%d (strings 0..%d) x ascending/descending predicate x :key, plus every list and vector of pairs over 2 "+
+		"letters of length %d..%d (beyond the insertion-sort threshold of library sorts); merge of every pair of sorted inputs 0..%d "+
+		"x result type x predicate x :key; union/intersection/set-difference/subsetp (+ n-variants) on every pair of lists 0..%d x :key "+
+		"x :test; every/some/notany/notevery on one sequence 0..%d and two sequences 0..%d; map/mapcar 0..%d; reduce 0..%d x bounds x "+
+		":key x :from-end x :initial-value; concatenate of up to %d sequences 0..%d x result type%s. Not enumerated (cut for time): the "+
+		"statement's length 8 / 4-symbol alphabet for every function; out-of-range bounds; :test-not and the -if-not functions (not "+
+		"defined by slip)",
+		c.itemL, c.letters, c.sletters, c.edgeL, c.assocL, c.twoL1, c.twoL2, c.twoAB, c.twoSAB, twoTests, c.subL, c.sortL, c.sortSL,
+		c.longLo, c.longHi, c.mergeL, c.setL, c.quantL1, c.quantL2, c.mapL, c.reduceL, c.concatN, c.concatL, extra)
 }
 
 // wordsOfLen: every word over letters of exactly length n.
